@@ -867,11 +867,21 @@ def verdict_expected_calls(s: VScn) -> set:
     return calls
 
 
-def verdict_project(events: list) -> list:
+def verdict_survivor_resolves(events: list) -> set:
+    """Paths whose first solver process was scheduled as killed by the early-exit shutdown.  cancel() is a no-op for a
+    process that is not started yet (halmos' known cancel-before-popen race, property C17): such a survivor answers (the
+    harness releases it), an abstract model is refined, and the re-submission is refused - one extra event
+    (R, p, shutdown) with the same err output.  It is not forced and not part of the model: tolerated."""
+    return {p for e, p, x in events if e == "F" and x == "killed"}
+
+
+def verdict_project(events: list, survivors: set = frozenset()) -> list:
     """The events a halmos thread takes (solver-process ends are driven by the harness)."""
     out = []
     for e, p, x in events:
         if e in ("F", "F2"):
+            continue
+        if e == "R" and x == "shutdown" and p in survivors:
             continue
         if e == "SF":
             x = "-"
@@ -925,9 +935,10 @@ def verdict_compare(s: VScn, o: dict, mutate: str | None = None) -> list:
     if not lenient:
         if [tuple(x) for x in o["outputs"]] != [tuple(x) for x in s.outputs] and not s.raised:
             issues.append(("conformance", f"solver outputs {o['outputs']}, the model says {s.outputs}"))
-        if o["enforced"] and verdict_project([tuple(e) for e in o["events"]]) != verdict_project(s.hist) and not s.raised:
+        surv = verdict_survivor_resolves(s.hist)
+        if o["enforced"] and verdict_project([tuple(e) for e in o["events"]], surv) != verdict_project(s.hist, surv) and not s.raised:
             issues.append(("conformance", f"events {o['events']}, the model says {s.hist}"))
-        if o["unexpected"] and not s.raised:
+        if [u for u in o["unexpected"] if not (u[0] == "R" and u[1] in surv)] and not s.raised:
             issues.append(("conformance", f"code sites reached that the model does not schedule: {o['unexpected']}"))
         if set(o["calls"]) != verdict_expected_calls(s) and not s.raised:
             issues.append(("conformance", f"solver invoked for {o['calls']}, the model says {sorted(verdict_expected_calls(s))}"))
@@ -959,7 +970,8 @@ def verdict_trace_record(s: VScn, o: dict) -> dict | None:
     solver_outputs, the exit code."""
     if o["exitcode"] is None or o["broken"] or o["final_outputs"] is None:
         return None
-    evs = [tuple(e) for e in o["events"]]
+    surv = verdict_survivor_resolves(s.hist)
+    evs = [tuple(e) for e in o["events"] if not (e[0] == "R" and e[2] == "shutdown" and e[1] in surv and ("R", e[1], "shutdown") not in s.hist)]
     main = [{"e": e, "p": p, "x": x} for e, p, x in evs if e in ("E", "S", "K", "SF")]
     workers = [[{"e": e, "p": p, "x": x} for e, p, x in evs if e in ("B", "R", "C", "X") and p == q] for q in range(len(s.arms))]
     return {
